@@ -105,6 +105,8 @@ func worker(p *props.Prop, args []string) {
 	c.End()
 	props.CovReplay(c, p.ID)
 	c.End()
+	props.FamilyReplay(c, p.ID)
+	c.End()
 	s := c.Finish()
 	f, err := os.Create(filepath.Join(*work, fmt.Sprintf("w%d.json", *shard)))
 	if err != nil {
